@@ -1752,7 +1752,18 @@ impl Tree {
 		checkpoint_dir: P,
 	) -> Result<CheckpointMetadata> {
 		let checkpoint = DatabaseCheckpoint::new(Arc::clone(&self.core.inner));
-		checkpoint.create_checkpoint(checkpoint_dir)
+		let result = checkpoint.create_checkpoint(checkpoint_dir);
+
+		// The checkpoint has flushed the memtables itself. Writers held back by the immutable
+		// queue may go on, and the tables it put into level 0 are the compaction task's
+		// business like those of any other flush: nothing else wakes that task while the
+		// writers wait for it at the level-0 limit.
+		self.core.write_stall.signal_work_done();
+		if let Some(task_manager) = self.core.task_manager.lock().unwrap().as_ref() {
+			task_manager.wake_up_level();
+		}
+
+		result
 	}
 
 	/// Restores the database from a checkpoint directory.
